@@ -18,6 +18,9 @@ class Gen:
         self.loop_depth = 0
         self.in_lambda = 0
         self.top = []               # names declared at top level (tracked globals)
+        # C17: whether a name declared in one branch of an `if` is bound afterwards depends on the path
+        # taken; a static freezer cannot know, so such programs are not generated there
+        self.branch_scoped = False
 
     # ---------------------------------------------------------------- scopes
     def fresh(self, prefix="v"):
@@ -185,6 +188,14 @@ class Gen:
                 break
         return g.seq(stmts) if len(stmts) > 1 else stmts[0]
 
+    def scoped_block(self, n):
+        if not self.branch_scoped:
+            return self.block(n)
+        self.push()
+        b = self.block(n)
+        self.pop()
+        return b
+
     def lam(self):
         arity = self.rng.choice([0, 1, 1, 2])
         ps = []
@@ -236,7 +247,10 @@ class Gen:
         if r < 0.46:
             return [g.call(I("print"), [self.int_expr(1)] + ([self.int_expr(2)] if self.rng.random() < 0.3 else []))]
         if r < 0.54:
-            return [g.if_(self.cond(), self.block(2), self.block(2) if self.rng.random() < 0.6 else None)]
+            c = self.cond()
+            a = self.scoped_block(2)
+            b = self.scoped_block(2) if self.rng.random() < 0.6 else None
+            return [g.if_(c, a, b)]
         if r < 0.64:
             return [self.for_stmt()]
         if r < 0.69:
@@ -262,7 +276,7 @@ class Gen:
             self.declare(x, "any")
             handler = self.block(2)
             self.pop()
-            body = g.seq([self.block(2), g.if_(self.cond(1), g.throw(self.int_expr(1)))])
+            body = g.seq([self.scoped_block(2), g.if_(self.cond(1), g.throw(self.int_expr(1)))])
             return [g.try_(body, x, handler)]
         if r < 0.95 and self.loop_depth > 0:
             lv = self.rng.randint(0, self.loop_depth - 1) if self.rng.random() < 0.8 else self.loop_depth
